@@ -224,6 +224,9 @@ type Tracker struct {
 	mu     sync.Mutex
 	Events []TrackEvent
 	ID     peer.ID
+	// optional scripted answers (C06 cluster-wide view)
+	StatusFn    func(c cid.Cid) *api.PinInfo
+	StatusAllFn func(f api.TrackerStatus) []*api.PinInfo
 }
 
 func (t *Tracker) SetClient(*rpc.Client)          {}
@@ -240,8 +243,16 @@ func (t *Tracker) Untrack(ctx context.Context, c cid.Cid) error {
 	t.mu.Unlock()
 	return nil
 }
-func (t *Tracker) StatusAll(context.Context, api.TrackerStatus) []*api.PinInfo { return nil }
+func (t *Tracker) StatusAll(ctx context.Context, f api.TrackerStatus) []*api.PinInfo {
+	if t.StatusAllFn != nil {
+		return t.StatusAllFn(f)
+	}
+	return nil
+}
 func (t *Tracker) Status(ctx context.Context, c cid.Cid) *api.PinInfo {
+	if t.StatusFn != nil {
+		return t.StatusFn(c)
+	}
 	return &api.PinInfo{Cid: c, Peer: t.ID, PinInfoShort: api.PinInfoShort{Status: api.TrackerStatusPinned, TS: time.Now()}}
 }
 func (t *Tracker) RecoverAll(context.Context) ([]*api.PinInfo, error) { return nil, nil }
